@@ -1,7 +1,7 @@
 (** C04 — mass leaves only via fixation/loss.  Only statements; every proof is [exact <lemma>]. *)
 From Coq Require Import Reals List Lra Lia Bool.
 From Dadi Require Import Base.Num Base.NumR Model.Tridiag Model.Scheme Model.NDSweep
-  Proofs.TridiagProofs Proofs.SchemeProofs Proofs.MassBalance Proofs.Drivers Proofs.NDLines Proofs.NDSweepProofs.
+  Proofs.TridiagProofs Proofs.SchemeProofs Proofs.MassBalance Proofs.Drivers Proofs.NDLines Proofs.NDSweepProofs Proofs.NDWeights Proofs.IntegrateLinear Proofs.IntegrateRescale Proofs.FrozenMarginal Proofs.FrozenStep.
 Import ListNotations.
 Local Open Scope R_scope.
 
@@ -64,6 +64,36 @@ Theorem C04_sweep_mass_balance_on_every_line : forall shape grids pops k p, nth_
   trapz (nth k grids []) u + dt * (out0 (nth k grids []) (Mline shape grids k p o q) (p_nu p) (corner0 shape grids k o q) * nthF u 0
                                   + out1 (nth k grids []) (Mline shape grids k p o q) (p_nu p) (corner1 shape grids k o q) * nthF u (length (nth k grids []) - 1)).
 Proof. exact sweep_mass_balance_line. Qed.
+
+(** the trapezoid-marginal density of population f at a frequency strictly inside (0,1) is unchanged by the sweep of
+    any OTHER population k, whatever k's size, selection, dominance and migration (any dimension) *)
+Theorem C04_sweep_preserves_marginal_of_other_population : forall shape grids pops k f i p,
+  (k < length shape)%nat -> (f < length shape)%nat -> f <> k -> nth_error pops k = Some p ->
+  length (nth k grids []) = ax_len shape k -> (2 <= ax_len shape k)%nat ->
+  (forall j, (j < length (nth k grids []) - 1)%nat -> 0 < dx (nth k grids []) j) -> length grids = length shape ->
+  nthF (nth f grids []) i <> 0 /\ nthF (nth f grids []) i <> 1 ->
+  forall dt, dt <> 0 -> forall dj phi,
+  (forall o q, (o < ax_outer shape k)%nat -> (q < ax_inner shape k)%nat ->
+     nonzero (all_pivots (line_rows (nth k grids []) (Vfunc_beta (p_nu p) (p_beta p)) (Mline shape grids k p o q) (p_nu p)
+                                    (corner0 shape grids k o q) (corner1 shape grids k o q) dt dj (get_line shape k phi o q)))) ->
+  marginal_at shape grids f i (sweep shape grids pops k dt dj phi) = marginal_at shape grids f i phi.
+Proof. exact sweep_preserves_marginal_of_other_population. Qed.
+
+(** frozen_marginal_exact: a frozen population's marginal density at every interior frequency is unchanged by a whole
+    integration (mutation influx + sweeps of all non-frozen populations, any number of time steps and populations) *)
+Theorem C04_frozen_marginal_exact : forall shape grids pops f i pf dj tf,
+  wf_pops shape pops -> length grids = length shape -> (forall n, In n shape -> (2 <= n)%nat) ->
+  (forall k, (k < length shape)%nat ->
+     length (nth k grids []) = ax_len shape k /\ (2 <= ax_len shape k)%nat /\
+     (forall j, (j < length (nth k grids []) - 1)%nat -> 0 < dx (nth k grids []) j)) ->
+  (f < length shape)%nat -> nth_error pops f = Some pf -> p_frozen pf = true -> i <> 0%nat ->
+  nthF (nth f grids []) i <> 0 /\ nthF (nth f grids []) i <> 1 ->
+  0 < tf -> (forall dt, 0 < dt -> nonsingular shape grids pops dj dt) ->
+  forall fuel theta t T phi res,
+  integrate_const fuel shape grids pops theta tf dj t T phi = Some res ->
+  marginal_at shape grids f i res = marginal_at shape grids f i phi.
+Proof. exact integrate_preserves_frozen_marginal. Qed.
+Print Assumptions C04_frozen_marginal_exact.
 
 (** zero-duration integration returns the density unchanged (constant and time-dependent drivers) *)
 Theorem C04_zero_duration_identity : forall fuel shape grids (pops : list (@pop R)) theta0 tf use_delj t phi,
